@@ -708,6 +708,8 @@ pub struct FrameOpts {
     /// every packet's RDH0 passes the documented pre-check and carries a known system id
     /// (needed when any packet may become the first packet of a derived file)
     pub all_rdh0_valid: bool,
+    /// two thirds of the raw payloads between 4 000 and 10 000 bytes (streams that outgrow the reader's 50 KiB buffer)
+    pub mostly_large: bool,
 }
 
 impl Default for FrameOpts {
@@ -719,6 +721,7 @@ impl Default for FrameOpts {
             valid_layers: false,
             its_first: false,
             all_rdh0_valid: false,
+            mostly_large: false,
         }
     }
 }
@@ -750,6 +753,10 @@ pub fn gen_any_word(t: &mut Tape) -> Word {
         }
     }
     w[9] = id;
+    // now and then a word of ten 0xFF bytes (looks like padding, is a word with an unrecognised identifier when it is not at the end)
+    if t.chance(1, 24) {
+        w = [0xFF; 10];
+    }
     w
 }
 
@@ -905,12 +912,16 @@ pub fn gen_frame_stream(t: &mut Tape, o: &FrameOpts) -> (Stream, Vec<String>) {
                 }
             }
         } else {
-            let len = match t.weighted(&[3, 2, 6, 1, 1]) {
+            let len = if o.mostly_large && t.chance(2, 3) {
+                4_000 + t.below(6_001)
+            } else {
+                match t.weighted(&[3, 2, 6, 1, 1]) {
                 0 => 0,
                 1 => 1 + t.below(16),
                 2 => t.below(400),
                 3 => 9_999 + t.below(2),
                 _ => t.below(o.max_payload + 1),
+                }
             }
             .min(o.max_payload);
             p.raw = Some(if len <= 32 { t.bytes(len) } else { t.bytes_cheap(len) });
